@@ -10,6 +10,7 @@
 (***************************************************************************)
 EXTENDS Bitboard, Json, IOUtils, TLC
 
+ASSUME BitSane
 Rec == ndJsonDeserialize(IOEnv.TRACE)
 StuckAt == IF "STUCK" \in DOMAIN IOEnv THEN atoi(IOEnv.STUCK) ELSE 0
 VARIABLE l
